@@ -257,6 +257,9 @@ type shapeSpec struct {
 	Name   string     `json:"name"`
 	Margin [6]float64 `json:"margin"` // enlargement of the tight box, fractions of its size: -x,-y,-z,+x,+y,+z
 	Params []float64  `json:"params"`
+	Scale  []float64  `json:"scale,omitempty"`  // non-uniform sdf.Scale3d applied last (the field then over/under-estimates distance)
+	Box    []float64  `json:"box,omitempty"`    // explicit sampled box min x,y,z max x,y,z (overrides Margin)
+	Centre []float64  `json:"centre,omitempty"` // translation applied to "box"
 }
 
 func buildShape(sp shapeSpec) (sdf.SDF3, bool, error) {
@@ -277,6 +280,9 @@ func buildShape(sp shapeSpec) (sdf.SDF3, bool, error) {
 		}
 	case "box":
 		s, err = sdf.Box3D(v3.Vec{X: p(0, 2), Y: p(1, 1.5), Z: p(2, 1)}, 0)
+		if err == nil && len(sp.Centre) == 3 {
+			s = sdf.Transform3D(s, sdf.Translate3d(v3.Vec{X: sp.Centre[0], Y: sp.Centre[1], Z: sp.Centre[2]}))
+		}
 	case "origin-sphere":
 		s, err = sdf.Sphere3D(p(0, 1))
 	case "rotbox":
@@ -326,6 +332,13 @@ func buildShape(sp shapeSpec) (sdf.SDF3, bool, error) {
 	if err != nil {
 		return nil, false, err
 	}
+	if len(sp.Scale) == 3 {
+		s = sdf.Transform3D(s, sdf.Scale3d(v3.Vec{X: sp.Scale[0], Y: sp.Scale[1], Z: sp.Scale[2]}))
+		exact = false
+	}
+	if len(sp.Box) == 6 {
+		return &wrapped{s: s, bb: sdf.Box3{Min: v3.Vec{X: sp.Box[0], Y: sp.Box[1], Z: sp.Box[2]}, Max: v3.Vec{X: sp.Box[3], Y: sp.Box[4], Z: sp.Box[5]}}}, exact, nil
+	}
 	bb := s.BoundingBox()
 	sz := bb.Size()
 	w := &wrapped{s: s, bb: sdf.Box3{
@@ -351,7 +364,11 @@ func (rs renderSpec) key() string {
 }
 
 func renderV1(s sdf.SDF3, rs renderSpec) []sdf.Triangle3 {
-	r := dc.NewDualContouringV1(-1, rs.RCond, true)
+	return renderV1With(dc.NewDualContouringV1(-1, rs.RCond, true), s, rs.Cells)
+}
+
+// renderV1With renders with the given renderer VALUE (it may have rendered before).
+func renderV1With(r *dc.DualContouringV1, s sdf.SDF3, cells int) []sdf.Triangle3 {
 	ch := make(chan *sdf.Triangle3, 1024)
 	var out []sdf.Triangle3
 	done := make(chan struct{})
@@ -361,7 +378,7 @@ func renderV1(s sdf.SDF3, rs renderSpec) []sdf.Triangle3 {
 		}
 		close(done)
 	}()
-	r.Render(s, rs.Cells, ch)
+	r.Render(s, cells, ch)
 	close(ch)
 	<-done
 	return out
@@ -371,8 +388,9 @@ func newV2(rs renderSpec) *dc.DualContouringV2 {
 	return dc.NewDualContouringV2(rs.FarAway, rs.CenterPush, 0, 1, 1e-4, 1000, rs.Cells)
 }
 
-func renderV2(s sdf.SDF3, rs renderSpec) []sdf.Triangle3 {
-	r := newV2(rs)
+func renderV2(s sdf.SDF3, rs renderSpec) []sdf.Triangle3 { return renderV2With(newV2(rs), s) }
+
+func renderV2With(r *dc.DualContouringV2, s sdf.SDF3) []sdf.Triangle3 {
 	ch := make(chan []*sdf.Triangle3, 1024)
 	var out []sdf.Triangle3
 	done := make(chan struct{})
@@ -474,6 +492,93 @@ func (l lattice) inCrossingCell(s sdf.SDF3, v v3.Vec, tol float64) bool {
 	return false
 }
 
+// cornerConflict: a lattice corner shared by several voxels that own a vertex must have the same
+// sign in the corner mask of each of them (bit i of a mask = corner cell + (i>>2&1, i>>1&1, i&1)).
+func cornerConflict(cells []v3i.Vec, masks []int) string {
+	type seen struct {
+		solid bool
+		cell  v3i.Vec
+	}
+	at := map[v3i.Vec]seen{}
+	n, first := 0, ""
+	for k, c := range cells {
+		for i := 0; i < 8; i++ {
+			p := v3i.Vec{X: c.X + i>>2&1, Y: c.Y + i>>1&1, Z: c.Z + i&1}
+			solid := masks[k]>>i&1 == 1
+			if o, ok := at[p]; ok {
+				if o.solid != solid {
+					n++
+					if first == "" {
+						first = fmt.Sprintf("lattice corner %v is solid=%v for voxel %v but solid=%v for voxel %v", p, o.solid, o.cell, solid, c)
+					}
+				}
+			} else {
+				at[p] = seen{solid, c}
+			}
+		}
+	}
+	if n == 0 {
+		return ""
+	}
+	return fmt.Sprintf("voxels disagree on the sign of %d shared lattice corners, e.g. %s", n, first)
+}
+
+type stateSpec struct {
+	A renderSpec `json:"a"` // rendered first (twice), with the renderer value under test
+	B shapeSpec  `json:"b"` // rendered afterwards with the same value, and with a fresh one
+}
+
+func (st stateSpec) key() string {
+	b, _ := json.Marshal(st)
+	return "state:" + string(b)
+}
+
+// checkState: the output must not depend on what the renderer VALUE rendered before.
+func checkState(r *Report, stratum string, st stateSpec, fallbackSeen *int) {
+	key := st.key()
+	a, _, err := buildShape(st.A.Shape)
+	if err != nil {
+		r.Violate(key, "harness: cannot build shape: "+err.Error(), st)
+		return
+	}
+	b, _, err := buildShape(st.B)
+	if err != nil {
+		r.Violate(key, "harness: cannot build shape: "+err.Error(), st)
+		return
+	}
+	var buf strings.Builder
+	log.SetOutput(&buf)
+	defer log.SetOutput(io.Discard)
+	var a1, a2, b1, bf []sdf.Triangle3
+	switch st.A.Renderer {
+	case "v1":
+		rv := dc.NewDualContouringV1(-1, st.A.RCond, true)
+		a1 = renderV1With(rv, a, st.A.Cells)
+		a2 = renderV1With(rv, a, st.A.Cells)
+		b1 = renderV1With(rv, b, st.A.Cells)
+		bf = renderV1With(dc.NewDualContouringV1(-1, st.A.RCond, true), b, st.A.Cells)
+	case "v2":
+		rv := newV2(st.A)
+		a1 = renderV2With(rv, a)
+		a2 = renderV2With(rv, a)
+		b1 = renderV2With(rv, b)
+		bf = renderV2With(newV2(st.A), b)
+	}
+	if strings.Contains(buf.String(), "raycast failed") {
+		*fallbackSeen++
+	} else if st.A.Renderer == "v2" && os.Getenv("C19_DEBUG") != "" {
+		fmt.Println("no fallback:", st.A.Shape.Name, st.A.Shape.Scale, st.A.Cells, st.A.FarAway, st.A.CenterPush)
+	}
+	r.Case("state/"+stratum, key, len(a1) > 0 && len(bf) > 0)
+	if ok, why := sameTriangles(a1, a2); !ok {
+		r.Violate(key, "the same renderer value rendering the same shape twice gives different output: "+why, st)
+		return
+	}
+	if ok, why := sameTriangles(bf, b1); !ok {
+		r.Violate(key, "a renderer value that rendered another shape before gives different output than a fresh one (first = fresh, second = used): "+why, st)
+	}
+}
+
 func checkRender(r *Report, stratum string, rs renderSpec) {
 	key := rs.key()
 	s, exact, err := buildShape(rs.Shape)
@@ -495,11 +600,31 @@ func checkRender(r *Report, stratum string, rs renderSpec) {
 		if len(m.Indices) != 3*len(t1) {
 			r.Violate(key, fmt.Sprintf("Render sent %d triangles but the index buffer holds %d indices", len(t1), len(m.Indices)), rs)
 		}
+		var its []itri
+		for i := 0; i+2 < len(m.Indices); i += 3 {
+			its = append(its, itri{m.Cells[m.Indices[i]], m.Cells[m.Indices[i+1]], m.Cells[m.Indices[i+2]]})
+		}
+		if why := unbalancedI(its); why != "" {
+			r.Violate(key, "V1 index buffer not closed: "+why, rs)
+		}
+		if why := cornerConflict(m.Cells, m.Corners); why != "" {
+			r.Violate(key, "V1 "+why, rs)
+		}
 	case "v2":
 		t1 = renderV2(s, rs)
 		t2 = renderV2(s, rs)
 		m := dc.VerifV2Buffers(newV2(rs), s)
 		lat = lattice{Min: m.BoxMin, Step: m.CellSize, Cells: m.Cells}
+		its := make([]itri, len(m.Triangles))
+		for i, t := range m.Triangles {
+			its[i] = itri(t)
+		}
+		if why := unbalancedI(its); why != "" {
+			r.Violate(key, "V2 triangles in cell indices not closed: "+why, rs)
+		}
+		if why := cornerConflict(m.VertexCells, m.Inside); why != "" {
+			r.Violate(key, "V2 "+why, rs)
+		}
 	}
 	r.Case("render/"+stratum, key, len(t1) > 0)
 	if r.Evaluations%17 == 3 {
@@ -577,6 +702,7 @@ type corpus struct {
 	GridsV1 []signGrid   `json:"grids_v1"`
 	GridsV2 []signGrid   `json:"grids_v2"`
 	Renders []renderSpec `json:"renders"`
+	States  []stateSpec  `json:"states"`
 }
 
 func log2(n int) int {
@@ -765,6 +891,13 @@ func check(c *Ctx, r *Report) error {
 				} else {
 					v2Grid("replay", sg)
 				}
+			case strings.HasPrefix(fi.Key, "state:"):
+				var st stateSpec
+				if err := json.Unmarshal(fi.Input, &st); err != nil {
+					return err
+				}
+				n := 0
+				checkState(r, "replay", st, &n)
 			case strings.HasPrefix(fi.Key, "render:"):
 				var rs renderSpec
 				if err := json.Unmarshal(fi.Input, &rs); err != nil {
@@ -871,6 +1004,66 @@ func check(c *Ctx, r *Report) error {
 			checkRender(r, "aligned/v2/"+al.Name, renderSpec{Shape: al, Renderer: "v2", Cells: cells, FarAway: 0.5, CenterPush: 0.1})
 		}
 	}
+
+	// grid-aligned NON-dyadic boxes: faces on lattice planes of the sampled volume to within rounding, so the field
+	// is ~1e-17 at whole planes of lattice corners and any inconsistency in how a corner is sampled shows
+	alignedBox := func(o [3]float64, h float64, n [3]int, lo, hi [3]int) shapeSpec {
+		sp := shapeSpec{Name: "box"}
+		for a := 0; a < 3; a++ {
+			sp.Params = append(sp.Params, float64(hi[a]-lo[a])*h)
+			sp.Centre = append(sp.Centre, o[a]+h*float64(lo[a]+hi[a])/2)
+		}
+		sp.Box = []float64{o[0], o[1], o[2], o[0] + h*float64(n[0]), o[1] + h*float64(n[1]), o[2] + h*float64(n[2])}
+		return sp
+	}
+	na := TierN(c.Tier, 10, 120, 40)
+	for k := 0; k < na; k++ {
+		cells := []int{8, 16, 8, 16, 32}[k%5]
+		h := []float64{0.15, 0.05, 0.1, 0.07, 0.3, 0.013}[rng.Intn(6)]
+		if k%2 == 1 {
+			h = 0.01 * float64(rng.Range(3, 97)) // any two-decimal step
+		}
+		o := [3]float64{-h * float64(cells) / 2, -h * float64(cells) / 2, -h * float64(cells) / 2}
+		if k%3 == 2 { // translated
+			o = [3]float64{0.1 * float64(rng.Range(-9, 9)), 0.01 * float64(rng.Range(-99, 99)), 0.37}
+		}
+		n := [3]int{cells, cells, cells}
+		if k%7 == 6 {
+			n = [3]int{cells, cells / 2, cells / 2}
+		}
+		var lo, hi [3]int
+		for a := 0; a < 3; a++ {
+			lo[a] = rng.Range(1, n[a]/2)
+			hi[a] = rng.Range(n[a]/2+1, n[a]-1)
+		}
+		sp := alignedBox(o, h, n, lo, hi)
+		checkRender(r, "aligned-nondyadic/v1", renderSpec{Shape: sp, Renderer: "v1", Cells: cells})
+		checkRender(r, "aligned-nondyadic/v2", renderSpec{Shape: sp, Renderer: "v2", Cells: cells, FarAway: 0.499999, CenterPush: 0.01})
+	}
+
+	// renderer STATE: one renderer value, several Render calls.  Shape A is scaled non-uniformly (its field
+	// over-estimates distance, so the V2 ray cast fails on some edges and the warn-once flags get set), B is plain.
+	fallbackSeen := 0
+	for _, st := range cp.States {
+		checkState(r, "corpus", st, &fallbackSeen)
+	}
+	ns := TierN(c.Tier, 8, 80, 24)
+	for k := 0; k < ns; k++ {
+		a := shapeSpec{Name: []string{"origin-sphere", "box", "roundbox"}[k%3], Margin: [6]float64{.2, .15, .3, .25, .2, .1}}
+		a.Scale = []float64{1 + rng.Float(), 0.5 + 0.5*rng.Float(), 0.3 + 0.25*rng.Float()}
+		b := shapeSpec{Name: []string{"sphere", "rotbox"}[k/3%2], Margin: [6]float64{.2, .15, .3, .25, .2, .1}}
+		st := stateSpec{A: renderSpec{Shape: a, Cells: []int{8, 12, 16}[rng.Intn(3)]}, B: b}
+		if k%4 == 3 {
+			st.A.Renderer = "v1"
+			st.A.RCond = []float64{0, 1e-3, 0.1}[rng.Intn(3)]
+		} else {
+			st.A.Renderer = "v2"
+			st.A.FarAway = []float64{0.499999, 0.25, 0.5}[rng.Intn(3)]
+			st.A.CenterPush = []float64{0.01, 0.1, 1}[rng.Intn(3)]
+		}
+		checkState(r, st.A.Renderer, st, &fallbackSeen)
+	}
+	r.Coverage["state_cases_with_raycast_fallback"] = fallbackSeen
 
 	r.Rule = "grid cases: sign assignments on small lattices (V2: 1..7 cells per axis, V1: octree depth 1..3, 4 in the long tiers) in strata empty / single solid point / sparse / half / dense / full interior / checkerboard / union of boxes (all with outside boundary) and boundary-solid (outside the class, correspondence only), realised by a trilinear lattice field and rendered by the real code; the triangle list in cell indices is compared, in order, with the Gallina model evaluated on the same grid; non-trivial = at least one triangle, distinct by (lattice size, sign bits). render cases: sphere, box, rotated box, rounded box, box minus sphere, cylinder minus cylinder, union of spheres, each in an asymmetrically enlarged box, 6..27 (40) cells, V1 (lock on, no simplification, three rcond values) and V2 (FarAway in {0.25,0.4,0.499999,0.5}, CenterPush in {0.01,0.1,1}); non-trivial = produced triangles, distinct by full parameter record."
 	r.Trusted = append(r.Trusted,
